@@ -570,6 +570,9 @@ namespace g
    struct oct  : uri::dec_octet {};
    struct raw  : raw_string< '[', '=', ']' > {};
    struct unum : unsigned_rule {};
+   struct word : plus< range< 'a', 'b' > > {};
+   struct wmk  : minus< word, string< 'a', 'b' > > {};
+   struct wrm  : rematch< word, seq< one< 'a' >, star< any > >, seq< any, one< 'b' >, star< any > > > {};
 
    // grammars; `discard` only at documented-safe points: after a complete token at the top of a
    // star<> iteration, outside every rule that has an apply() action, and where no enclosing
@@ -615,6 +618,8 @@ namespace g
    struct G37 : seq< list< oct, one< '.' > >, eof > {};
    struct G38 : seq< star< sor< raw, x > >, eof > {};
    struct G39 : seq< star< sor< unum, x > >, eof > {};
+   struct G40 : seq< star< c >, star< sor< wmk, seq< word, c >, x > >, eof > {};
+   struct G41 : seq< star< c >, opt< wrm >, star< x > > {};
    // clang-format on
 }  // namespace g
 
@@ -655,6 +660,8 @@ template<> struct act< g::nrz > : rec< 32 > {};
 template<> struct act< g::oct > : rec< 33 > {};
 template<> struct act< g::raw > : rec< 34 > {};
 template<> struct act< g::unum > : rec< 35 > {};
+template<> struct act< g::wmk > : rec< 36 > {};
+template<> struct act< g::wrm > : rec< 37 > {};
 // clang-format on
 
 template< typename Rule, typename Input >
@@ -989,6 +996,8 @@ static std::vector< gram > grammars()
    C07_G( 37, G37, "seq< list< uri::dec_octet, one<'.'> >, eof >", "25.", 4, 0, "255", "25", "2550", "1.", ".", "0" );
    C07_G( 38, G38, "seq< star< sor< raw_string<'[','=',']'>, any > >, eof >", "[=]a", 64, 0, "[[a]]", "[=[a]=]", "[=[a]]=]", "[[", "]]", "[==[\n]=]]==]" );
    C07_G( 39, G39, "seq< star< sor< unsigned_rule, any > >, eof >", "01a", 64, 0, "0", "12", "a", "007" );
+   C07_G( 40, G40, "seq< star< c >, star< sor< minus< plus< range<'a','b'> >, string<'a','b'> >, seq< plus< range<'a','b'> >, c >, any > >, eof >", "abc", 64, 0, "ab", "c", "aba", "b", "cab" );
+   C07_G( 41, G41, "seq< star< c >, opt< rematch< plus< range<'a','b'> >, seq< one<'a'>, star< any > >, seq< any, one<'b'>, star< any > > > >, star< any > >", "abc", 64, 0, "ab", "c", "aba", "ba", "cab" );
    return v;
 }
 
@@ -1016,7 +1025,7 @@ struct tally
 {
    std::size_t inputs = 0, runs = 0, overflow = 0, matched = 0, failed = 0, raised = 0, mismatches = 0, nontrivial = 0;
    std::vector< std::string > lines;                // MISMATCH lines (first per class kind)
-   std::vector< int > reported = std::vector< int >( 40, 0 );
+   std::vector< int > reported = std::vector< int >( 48, 0 );
 };
 
 static const std::size_t MAXS[] = { 1, 2, 3, 4, 5, 6, 7, 8, 16 };
@@ -1068,7 +1077,7 @@ static void compare( const gram& G, const spec& s, const std::string& data, cons
       return;
    }
    ++t.mismatches;
-   const int ki = static_cast< int >( s.k ) + ( ( why == "EVERYTHING-WRAP" ) ? 20 : 0 );
+   const int ki = static_cast< int >( s.k ) + ( ( why == "EVERYTHING-WRAP" ) ? 24 : 0 );
    if( t.reported[ ki ]++ == 0 ) {
       std::string l = "MISMATCH grammar=" + std::to_string( G.index ) + " class=" + cls_name( s.k );
       l += " maximum=" + std::to_string( s.maximum ) + " chunk=" + std::to_string( s.chunk );
